@@ -64,6 +64,21 @@ def frames(prop):
         'frame/a-changed-node-is-queued-for-its-handlers-whichever-path-changed-it', 'src/node.rs', 'maybe_change_value_manual',
         [r'if\s+did_change\s*\{', r'self\.changed_at\.set\(', r'self\.maybe_handle_after_stabilisation\(state\)', r'let\s+parents\s*='],
         impl='impl Node'))
+    add({'C07', 'C10'}, lambda: F.in_order(
+        'frame/a-new-observer-starts-in-Created', 'src/internal_observer.rs', 'new',
+        [r'state:\s*Cell::new\(Created\)'], impl='impl<T: Value> InternalObserver<T>'))
+    add({'C05', 'C10'}, lambda: F.in_order(
+        'frame/unlinking-a-disallowed-observer-rechecks-the-node', 'src/state.rs', 'unlink_disallowed_observers',
+        [r'for\s+obs_weak\s+in\s+disallowed\.drain\(\.\.\)', r'obs\.state\(\)\.set\(ObserverState::Unlinked\)',
+         r'let\s+observing\s*=\s*obs\.observing_packed\(\)', r'obs\.remove_from_observed_node\(\)', r'ao\.remove\(&obs\.id\(\)\)',
+         r'observing\.check_if_unnecessary\(self\)'], impl='impl State'))
+    PV = 'impl<T: Value> Var<T>'
+    add({'C08'}, lambda: F.body_is('frame/public-Var::set-forwards', 'src/public.rs', 'set', r'self\.internal\.set\(value\)', impl=PV))
+    add({'C08'}, lambda: F.body_is('frame/public-Var::update-forwards', 'src/public.rs', 'update', r'self\.internal\.update\(f\)', impl=PV))
+    add({'C08'}, lambda: F.body_is('frame/public-Var::modify-forwards', 'src/public.rs', 'modify', r'self\.internal\.modify\(f\);?', impl=PV))
+    add({'C08'}, lambda: F.body_is('frame/public-Var::get-forwards', 'src/public.rs', 'get', r'self\.internal\.get\(\)', impl=PV))
+    add({'C08'}, lambda: F.body_is('frame/public-Var::replace_with-forwards', 'src/public.rs', 'replace_with', r'self\.internal\.replace_with\(\|mutable\|f\(mutable\)\)', impl=PV))
+    add({'C08'}, lambda: F.body_is('frame/public-Var::replace-is-replace_with-constant', 'src/public.rs', 'replace', r'self\.internal\.replace_with\(\|_\|value\)', impl=PV))
     # -- subscriber notifications ----------------------------------------------------------------------------
     add({'C09'}, lambda: F.only_in(
         'frame/handlers-run-only-from-stabilise_end', r'\.run_on_update_handlers\(', {'stabilise_end'}, SRC, min_hits=1))
